@@ -59,6 +59,11 @@ def make_dist(rng, k):
             # where any absolute tolerance hidden in the implementation becomes an O(1) error
             sc = float(10.0 ** rng.integers(-12, 9))
             mean, cov = mean * sc, cov * (sc * sc)
+        elif k % 5 == 2:
+            # badly scaled variables (standard deviations over eight orders of magnitude): huge 2-norm condition number,
+            # harmless for a correct solver (the relevant quantity is the condition number of the correlation matrix)
+            sdv = 10.0 ** rng.uniform(-4, 4, p)
+            mean, cov = mean * sdv, cov * np.outer(sdv, sdv)
         elif k % 5 == 1 and p >= 2:
             # very weak dependence between the first variable and the rest
             eps_ = float(10.0 ** rng.uniform(-11, -6))
@@ -151,6 +156,7 @@ def _form(idx, form):
 
 
 def _cmp(rec, family, case, what, got, want, tol, key, **ctx):
+    """tol: scalar, or an array of entry-wise tolerances of the same shape as the result."""
     got = np.asarray(got, dtype=float)
     want = np.asarray(want, dtype=float)
     if got.shape != want.shape:
@@ -158,9 +164,15 @@ def _cmp(rec, family, case, what, got, want, tol, key, **ctx):
         return False
     if got.size == 0:
         return True
-    err = float(np.max(np.abs(got - want))) if np.isfinite(got).all() else float("inf")
-    if err > tol:
-        rec.violation(key, family, case, "%s off by %.3g (tolerance %.3g)" % (what, err, tol), returned=got, expected=want, **ctx)
+    if not np.isfinite(got).all():
+        rec.violation(key, family, case, "%s contains non-finite values" % what, returned=got, expected=want, **ctx)
+        return False
+    excess = np.abs(got - want) - tol
+    if (excess > 0).any():
+        idx = np.unravel_index(int(np.argmax(excess)), got.shape)
+        rec.violation(key, family, case, "%s entry %s off by %.3g (tolerance %.3g)"
+                      % (what, tuple(int(i) for i in idx), float(np.abs(got - want)[idx]), float(np.broadcast_to(tol, got.shape)[idx])),
+                      returned=got, expected=want, **ctx)
         return False
     return True
 
@@ -210,11 +222,23 @@ def judge(family, case, rec):
             marg = None
         # ---- conditional vs exact oracle
         if Xs:
-            kappa = float(np.linalg.cond(cf[np.ix_(Xs, Xs)]))
+            Cxx = cf[np.ix_(Xs, Xs)]
+            kappa2 = float(np.linalg.cond(Cxx))
+            dd = np.sqrt(np.abs(np.diag(Cxx)))
+            # condition number of the *correlation* matrix of the conditioning block (invariant to the units of the variables)
+            kappa_s = float(np.linalg.cond(Cxx / np.outer(dd, dd))) if (dd > 0).all() else float("inf")
         else:
-            kappa = 1.0
-        rel = 1e3 * EPS * kappa
-        if not np.isfinite(rel) or rel > 1e-4:
+            kappa2 = kappa_s = 1.0
+        # two regimes.  (a) sound: the guaranteed normwise bound 1e3*eps*cond_2 is small -> judged against it.  (b) badly scaled
+        # variables (cond_2 huge only because of the units, correlation matrix well conditioned): the guaranteed bound is
+        # vacuous, but the routine is in fact accurate to ~eps*cond_s there (measured: <= 700 eps cond_s over 3e5 queries), so a
+        # *gross* error - 1e-3 relative in standardised units, four orders of magnitude above anything measured - is a violation
+        if np.isfinite(kappa2) and 1e3 * EPS * kappa2 <= 1e-4:
+            regime, kappa, rel = "sound", kappa2, 1e3 * EPS * kappa2
+        elif np.isfinite(kappa_s) and kappa_s <= 1e6:
+            regime, kappa, rel = "gross", kappa_s, 1e-3
+            rec.count("regime:badly-scaled-gross-error-only")
+        else:
             rec.count("too_ill_conditioned")
             continue
         try:
@@ -236,17 +260,30 @@ def judge(family, case, rec):
             Cyx = np.abs(cf[np.ix_(Y, Xs)])
             Cinv = np.abs(np.array([[float(v) for v in r] for r in X.inv(X.block(Fc, Xs, Xs))]))
             dx = np.abs(np.array(x) - mf[Xs])
-            scale_m = float(np.max(np.abs(mf[Y]) + Cyx @ Cinv @ dx))
-            scale_c = float(np.max(np.abs(cf[np.ix_(Y, Y)]) + Cyx @ Cinv @ Cyx.T))
+            t_m = Cyx @ Cinv @ dx
+            t_c = np.abs(cf[np.ix_(Y, Y)]) + Cyx @ Cinv @ Cyx.T
+            if regime == "sound":
+                scale_m = float(np.max(np.abs(mf[Y]) + t_m))           # normwise
+                scale_c = float(np.max(t_c))
+            else:
+                # normwise in standardised units (each Y variable in units of its own standard deviation)
+                sdy = np.sqrt(np.abs(np.diag(cf[np.ix_(Y, Y)])))
+                safe = np.where(sdy > 0, sdy, 1.0)
+                scale_m = np.abs(mf[Y]) + sdy * float(np.max(t_m / safe))
+                scale_c = np.outer(sdy, sdy) * float(np.max(t_c / np.outer(safe, safe)))
         else:
-            scale_m = float(np.max(np.abs(mf[Y])))
-            scale_c = float(np.max(np.abs(cf[np.ix_(Y, Y)])))
+            scale_m = np.abs(mf[Y])
+            scale_c = np.abs(cf[np.ix_(Y, Y)])
         gm, gc = np.asarray(cond.mean, dtype=float), np.asarray(cond.covariance, dtype=float)
         if gm.shape == wmf.shape and gc.shape == wcf.shape and Xs:
-            if scale_m > 0:
-                rec.max("max-mean-error/(eps*cond*scale)", float(np.max(np.abs(gm - wmf))) / (EPS * kappa * scale_m))
-            if scale_c > 0:
-                rec.max("max-cov-error/(eps*cond*scale)", float(np.max(np.abs(gc - wcf))) / (EPS * kappa * scale_c))
+            with np.errstate(all="ignore"):
+                rm = np.abs(gm - wmf) / (EPS * kappa * scale_m)
+                rc = np.abs(gc - wcf) / (EPS * kappa * scale_c)
+            tag = "" if regime == "sound" else "[badly scaled, cond of the correlation matrix]"
+            if np.isfinite(rm).any():
+                rec.max("max-mean-error/(eps*cond*scale)" + tag, float(np.nanmax(np.where(np.isfinite(rm), rm, np.nan))))
+            if np.isfinite(rc).any():
+                rec.max("max-cov-error/(eps*cond*scale)" + tag, float(np.nanmax(np.where(np.isfinite(rc), rc, np.nan))))
         _cmp(rec, family, sub, "conditional mean", gm, wmf, rel * scale_m + 1e-300, "C05:conditional-mean-wrong", cond=kappa, **ctx)
         _cmp(rec, family, sub, "conditional covariance", gc, wcf, rel * scale_c + 1e-300, "C05:conditional-covariance-wrong", cond=kappa, **ctx)
         # ---- metamorphic: conditioning on nothing == marginal, bit for bit
@@ -280,8 +317,8 @@ def judge(family, case, rec):
                     step2 = step1.conditional(list(range(len(Y))), list(range(len(Y), len(Y) + len(X2))), x[h:])
                     rec.count("meta:two-step")
                     tol2 = 1e3 * EPS * ktot * ktot
-                    _cmp(rec, family, sub, "two-step conditional mean", step2.mean, wmf, tol2 * max(scale_m, 1e-300), "C05:two-step-mean-differs", **ctx)
-                    _cmp(rec, family, sub, "two-step conditional covariance", step2.covariance, wcf, tol2 * max(scale_c, 1e-300), "C05:two-step-covariance-differs", **ctx)
+                    _cmp(rec, family, sub, "two-step conditional mean", step2.mean, wmf, tol2 * max(float(np.max(scale_m)), 1e-300), "C05:two-step-mean-differs", **ctx)
+                    _cmp(rec, family, sub, "two-step conditional covariance", step2.covariance, wcf, tol2 * max(float(np.max(scale_c)), 1e-300), "C05:two-step-covariance-differs", **ctx)
                 except Exception as e:
                     rec.exception_violation("C05:two-step-exception", family, sub, "two-step conditioning raised", e)
         # ---- exception contract
